@@ -141,9 +141,16 @@ def summarise(trace):
     return out
 
 
-def run_probe(domain, problem, pr):
+def object_table(problem, noobjs):
+    """what the Operator is given as problem_objects: the problem's own table (an EMPTY dict when the problem declares no
+    object), or None when the caller asks for an Operator built without an object table"""
+    return None if noobjs else problem.objects
+
+
+def run_probe(domain, problem, pr, noobjs=False):
     global TRACE, GROUP_IDS
     r = {}
+    objects = object_table(problem, noobjs)
 
     def fresh_state():
         return State({k: set(v) for k, v in problem.initial_state_predicates.items()},
@@ -153,14 +160,14 @@ def run_probe(domain, problem, pr):
         e = exc(KeyError(pr["action"]))
         return {"app": e, "succ": e, "forced": e, "valerr": False, "order": [], "uorder": [], "obs_order": False}
     try:
-        op = Operator(action, domain, list(pr["args"]), problem.objects)
+        op = Operator(action, domain, list(pr["args"]), objects)
         r["app"] = {"value": bool(op.is_applicable(fresh_state()))}
     except Exception as e:  # noqa
         r["app"] = exc(e)
     r["valerr"] = False
     r["order"], r["uorder"], r["obs_order"] = [], [], False
     try:
-        op = Operator(action, domain, list(pr["args"]), problem.objects)
+        op = Operator(action, domain, list(pr["args"]), objects)
         r["order"], r["uorder"], r["obs_order"] = arrange(op, pr)
         GROUP_IDS = {id(g) for g in op.grounded_effects}
         TRACE = []
@@ -174,7 +181,7 @@ def run_probe(domain, problem, pr):
         r["succ"] = exc(e)
         r["valerr"] = isinstance(e, ValueError)
     try:
-        op = Operator(action, domain, list(pr["args"]), problem.objects)
+        op = Operator(action, domain, list(pr["args"]), objects)
         pr2 = dict(pr)
         o2, u2, obs2 = arrange(op, pr2)
         if pr.get("perm") is None and obs2 and r["obs_order"] and (o2 != r["order"] or u2 != r["uorder"]):
@@ -199,7 +206,7 @@ def _canon(st):
     return (sorted((p, tuple(a)) for p, a in v["facts"]), sorted((f, tuple(a), x) for f, a, x in v["fluents"]))
 
 
-def run_seq(domain, problems, sq):
+def run_seq(domain, problems, sq, noobjs=False):
     """a call SEQUENCE on one Operator object.  sq: action, args, start (state index), perm/uperm/inner_seed, steps
     [{src: None (the state the previous call returned; the state it was given when it raised) | j (a fresh copy of
     state j), allow}].  Every returned state is read back at once and a second time after the last call."""
@@ -220,7 +227,7 @@ def run_seq(domain, problems, sq):
         out["steps"] = [{"succ": e, "valerr": False} for _ in sq["steps"]]
         return out
     try:
-        op = Operator(action, domain, list(sq["args"]), problems[sq["start"]].objects)
+        op = Operator(action, domain, list(sq["args"]), object_table(problems[sq["start"]], noobjs))
         out["order"], out["uorder"], out["obs_order"] = arrange(op, sq)
         GROUP_IDS = {id(g) for g in op.grounded_effects}
     except Exception as e:  # noqa
@@ -257,7 +264,7 @@ def run_seq(domain, problems, sq):
 
 def world(job):
     """job: domain_text, states [problem_text], probes [{action, args, state (index), perm, uperm, inner_seed}],
-    seqs [see run_seq]"""
+    seqs [see run_seq], noobjs (bool: build every Operator with problem_objects=None)"""
     out = {"nums": number_table(job["domain_text"])}
     dpath = write_tmp(job["domain_text"], ".pddl")
     try:
@@ -284,9 +291,9 @@ def world(job):
             if isinstance(pb, dict):
                 res.append({"problem_raised": pb})
             else:
-                res.append(run_probe(domain, pb, pr))
+                res.append(run_probe(domain, pb, pr, noobjs=bool(job.get("noobjs"))))
         out["probes"] = res
-        out["seqs"] = [run_seq(domain, problems, sq) for sq in job.get("seqs", [])]
+        out["seqs"] = [run_seq(domain, problems, sq, noobjs=bool(job.get("noobjs"))) for sq in job.get("seqs", [])]
         return out
     finally:
         dpath.unlink()
